@@ -47,6 +47,8 @@ def make_config(rng):
         ref_lon = 0.0
     elif zref < 0.2:
         ref_lat, ref_lon = 0.0, 0.0
+    elif zref < 0.28:   # a few metres west of the Greenwich meridian / of the antimeridian: the towers lie across it
+        ref_lon = float(rng.choice([-10 ** rng.uniform(-6, -3.5), 180.0 - 10 ** rng.uniform(-6, -3.5)]))
     R = 6_371_000.0
     towers = []
     for k in range(nt):
